@@ -18,6 +18,11 @@ def type_name(I, key):
     return "{%s}%s" % (I["namespaces"][key[0]]["uri"], key[1])
 
 
+def suds_TypeNotFound():
+    import suds
+    return suds.TypeNotFound
+
+
 def to_arg(client, I, ttype, value, mode="dict"):
     """Abstract value -> the Python argument a suds user would pass.
     mode 'dict': plain dicts wherever possible (factory objects only where a derived type must be named);
@@ -43,7 +48,13 @@ def to_arg(client, I, ttype, value, mode="dict"):
             else:
                 out[k] = to_arg(client, I, members[k]["type"], v, mode)
         return out
-    obj = client.factory.create(type_name(I, real))
+    try:
+        obj = client.factory.create(type_name(I, real))
+    except suds_TypeNotFound():
+        if real != key:
+            raise
+        # the rendering wrote this type as an anonymous type: it has no name to create it by
+        return to_arg(client, I, ttype, value, "dict")
     for k, v in value.items():
         if k == "__type__":
             continue
@@ -235,10 +246,14 @@ def family(ctx, n, tag, encoded_every=5):
         yield ident, iface_of(ident)
 
 
-def rendering_of(rident):
+def rendering_of(rident, anonymous=True):
+    """anonymous=False: never write a named type as an anonymous one (checks that look at type names)."""
     if rident == "canonical":
         return IF.canonical_rendering()
-    return IF.random_rendering(random.Random("render:" + rident))
+    r = IF.random_rendering(random.Random("render:" + rident))
+    if not anonymous:
+        r.anonymous = False
+    return r
 
 
 def args_of(ident, I, op, case):
